@@ -18,4 +18,4 @@ require (
 	rsc.io/tmplfunc v0.0.3 // indirect
 )
 
-replace github.com/consensys/gnark-crypto => /tmp/trymut-repo-6426
+replace github.com/consensys/gnark-crypto => /tmp/trymut-repo-12913
